@@ -56,6 +56,10 @@ def degenerate(rng, tier):
         sps = ("67" * n)
         for m in (0, 1, 65535, 65536):
             hs.append({"base": 0, "cfg": muxgen.DEFAULT_CFG, "ops": [{"add": muxgen.tc("avc", sps=sps, pps="68" * m)}, {"w": [1, 1, 0, True, "aa"]}]})
+    ps = muxgen.structured_param_sets()
+    for i, sps in enumerate(ps):
+        hs.append({"base": 0, "cfg": muxgen.DEFAULT_CFG, "ops": [{"add": muxgen.tc("avc", sps=sps, pps=ps[(i * 7 + 1) % len(ps)])}, {"w": [1, 1, 0, True, "aa"]}]})
+        hs.append({"base": 0, "cfg": muxgen.DEFAULT_CFG, "ops": [{"add": muxgen.tc("avc", sps=sps[:8], pps=sps[:6])}, {"w": [1, 1, 0, True, "aa"]}]})
     # no tracks, unknown ids, id 0, id u32::MAX
     for tid in (0, 1, 2, U32 - 1):
         hs.append({"base": 0, "cfg": muxgen.DEFAULT_CFG, "ops": [{"w": [tid, 1, 0, True, "aa"]}]})
